@@ -354,4 +354,130 @@ example : ∃ j, 1 ≤ j ∧ (DeliveredAt fExec 7 j ∨ Gone (fExec.st (j + 1)) 
 example : DeliveredAt fExec 7 3 ∧ Gone (fExec.st 5) 7 ∧ removed (fExec.st 5).hist 7 = true :=
   ⟨⟨1, 1, by decide⟩, by unfold Gone; decide, by decide⟩
 
+/-! ### audit A7: the four hypotheses proved for the NON-trivial schedule `exExec` (the consumer never answers) -/
+
+/-- shape of `exExec`'s states at the top of the loop: message 7 queued, consumer 1 ready -/
+def ExQ (c : Chan) : Prop :=
+  ∃ e cl, c.msgs = [e] ∧ e.id = 7 ∧ e.loc = .queued ∧ c.clients = [cl] ∧ cl.conn = 1 ∧ cl.rdy = 1 ∧ cl.inFlight = 0 ∧
+    cl.msgTimeout = 100 ∧ c.paused = false ∧ c.memLen = 0 ∧ c.memCap = 0 ∧ c.ephemeral = false
+
+/-- … and in the middle: in flight to consumer 1 with deadline 100 -/
+def ExI (c : Chan) : Prop :=
+  ∃ e cl, c.msgs = [e] ∧ e.id = 7 ∧ e.loc = .inflight 1 100 0 ∧ c.clients = [cl] ∧ cl.conn = 1 ∧ cl.rdy = 1 ∧ cl.inFlight = 1 ∧
+    cl.msgTimeout = 100 ∧ c.paused = false ∧ c.memLen = 0 ∧ c.memCap = 0 ∧ c.ephemeral = false
+
+theorem exQ_deliver {c : Chan} (h : ExQ c) : ExI (step {} c (.deliver 1 7 0)).1 := by
+  obtain ⟨e, cl, hm, hid, hl, hc, h1, h2, h3, h4, h5, h6, h7, h8⟩ := h
+  have hf : findC c.clients 1 = some cl := by simp [findC, hc, h1]
+  have hr : ready c.paused cl = true := by simp [ready, h5, h2, h3]
+  have hfe : findE c.msgs 7 = some e := by simp [findE, hm, hid]
+  have hq : isQueued e = true := by simp [isQueued, hl]
+  simp only [step, hf, hr, Bool.not_true, Bool.false_eq_true, ↓reduceIte, doDeliver, hfe, hq]
+  refine ⟨{ e with att := e.att + 1, loc := .inflight 1 (0 + cl.msgTimeout) 0 },
+    { cl with inFlight := cl.inFlight + 1, msgCount := cl.msgCount + 1, lgr := cl.rdy, decr := false, armed := false }, ?_, hid, ?_, ?_, ?_, ?_, ?_, ?_, h5, ?_, h7, h8⟩
+  · simp [setE, hm, hid]
+  · simp [h4]
+  · simp only [updC, hc, List.map_cons, List.map_nil, h1, beq_self_eq_true, ↓reduceIte]
+  · exact h1
+  · exact h2
+  · simp [h3]
+  · exact h4
+  · simp [h6]
+
+theorem exI_scan {c : Chan} (h : ExI c) : ExQ (step {} c (.scanInFlight 1000)).1 := by
+  obtain ⟨e, cl, hm, hid, hl, hc, h1, h2, h3, h4, h5, h6, h7, h8⟩ := h
+  have hdue : dueInflight c 1000 = [7] := by
+    simp [dueInflight, hm, isInflight, priOf, hl, sortByPri, insertByPri, hid]
+  have hfe : findE c.msgs 7 = some e := by simp [findE, hm, hid]
+  simp only [step, hdue, List.foldl_cons, List.foldl_nil, timeoutOne, hfe, hl, enqueue, h6, h7, h8, Nat.lt_irrefl, ↓reduceIte,
+    Bool.false_eq_true]
+  refine ⟨{ e with loc := .queued }, decIn cl, ?_, hid, rfl, ?_, h1, h2, ?_, h4, h5, rfl, rfl, rfl⟩
+  · simp [setE, hm, hid]
+  · simp only [updC, hc, List.map_cons, List.map_nil, h1, beq_self_eq_true, ↓reduceIte]
+  · simp [decIn, h3]
+
+theorem exSt3 : ExQ (exExec.st 3) :=
+  ⟨⟨7, 0, .queued, {}⟩, { conn := 1, rdy := 1, msgTimeout := 100 }, by decide, rfl, rfl, by decide, rfl, rfl, rfl, rfl, by decide, by decide, by decide, by decide⟩
+
+theorem exOps_even (i : Nat) : exExec.ops (3 + 2 * i) = .deliver 1 7 0 := by
+  show exOpsAt (3 + 2 * i) = _
+  unfold exOpsAt exLoop
+  rw [dif_neg (by omega)]
+  have : (3 + 2 * i - 3) % 2 = 0 := by omega
+  simp [this]
+
+theorem exOps_odd (i : Nat) : exExec.ops (4 + 2 * i) = .scanInFlight 1000 := by
+  show exOpsAt (4 + 2 * i) = _
+  unfold exOpsAt exLoop
+  rw [dif_neg (by omega)]
+  have : (4 + 2 * i - 3) % 2 = 1 := by omega
+  simp [this]
+
+/-- the loop invariant of `exExec`: queued + ready at the even positions, in flight (deadline 100) at the odd ones -/
+theorem exLoopInv (i : Nat) : ExQ (exExec.st (3 + 2 * i)) ∧ ExI (exExec.st (4 + 2 * i)) := by
+  induction i with
+  | zero =>
+    refine ⟨exSt3, ?_⟩
+    have := exQ_deliver exSt3
+    rw [← exOps_even 0, ← exExec.next 3] at this
+    exact this
+  | succ i ih =>
+    have hq : ExQ (exExec.st (3 + 2 * (i + 1))) := by
+      have := exI_scan ih.2
+      rw [← exOps_odd i, ← exExec.next (4 + 2 * i)] at this
+      rwa [show 4 + 2 * i + 1 = 3 + 2 * (i + 1) by omega] at this
+    refine ⟨hq, ?_⟩
+    have := exQ_deliver hq
+    rw [← exOps_even (i + 1), ← exExec.next (3 + 2 * (i + 1))] at this
+    rwa [show 3 + 2 * (i + 1) + 1 = 4 + 2 * (i + 1) by omega] at this
+
+theorem exQ_loc {c : Chan} (h : ExQ c) : locOf c 7 = some .queued ∧ ∃ cl ∈ c.clients, ready c.paused cl = true := by
+  obtain ⟨e, cl, hm, hid, hl, hc, h1, h2, h3, h4, h5, _⟩ := h
+  refine ⟨by simp [locOf, findE, hm, hid, hl], cl, by simp [hc], by simp [ready, h5, h2, h3]⟩
+
+theorem exI_loc {c : Chan} (h : ExI c) : locOf c 7 = some (.inflight 1 100 0) := by
+  obtain ⟨e, cl, hm, hid, hl, _⟩ := h
+  simp [locOf, findE, hm, hid, hl]
+
+/-- audit A7: ALL four hypotheses of `eventually_delivered` hold for the NON-trivial schedule `exExec`, in which the consumer
+never answers: the message is in flight at every odd position and a scan with `t = 1000 ≥ 100` runs there (weak fairness of the
+scan, non-vacuously); it is queued with a ready consumer at every even position and is taken there (strong fairness of the pump). -/
+theorem exFairI : FairScanInFlight exExec 7 := by
+  intro n
+  refine ⟨4 + 2 * n, by omega, Or.inr ⟨1000, 1, 100, 0, exOps_odd n, exI_loc (exLoopInv n).2, by omega⟩⟩
+
+theorem exFairD : FairScanDeferred exExec 7 := by
+  intro n
+  refine ⟨4 + 2 * n, by omega, Or.inl ?_⟩
+  rintro ⟨p, hp⟩
+  rw [exI_loc (exLoopInv n).2] at hp
+  cases hp
+
+theorem exFairT : FairTake exExec 7 := by
+  intro _ n
+  refine ⟨3 + 2 * n, by omega, (exQ_loc (exLoopInv n).1).1, ?_⟩
+  have : locOf (exExec.st (3 + 2 * n + 1)) 7 = some (.inflight 1 100 0) := by
+    have := exI_loc (exLoopInv n).2
+    rwa [show 4 + 2 * n = 3 + 2 * n + 1 by omega] at this
+  unfold Queued
+  rw [this]
+  intro h; cases h
+
+theorem exReady : ReadyInfOften exExec := by
+  intro n
+  exact ⟨3 + 2 * n, by omega, (exQ_loc (exLoopInv n).1).2⟩
+
+/-- … and the theorems applied to it: delivered again and again, for ever (it is never gone) -/
+theorem ex_redelivered_forever : ∀ n', 4 ≤ n' → ∃ j, n' ≤ j ∧ DeliveredAt exExec 7 j := by
+  have hng : ¬ ∃ m, 4 ≤ m ∧ Gone (exExec.st m) 7 := by
+    rintro ⟨m, hm, hg⟩
+    unfold Gone at hg
+    obtain ⟨i, hi⟩ : ∃ i, m = 3 + 2 * i ∨ m = 4 + 2 * i := ⟨(m - 3) / 2, by omega⟩
+    rcases hi with rfl | rfl
+    · rw [(exQ_loc (exLoopInv i).1).1] at hg; cases hg
+    · rw [exI_loc (exLoopInv i).2] at hg; cases hg
+  rcases redelivered_until_gone exExec 7 exFairI exFairD exFairT exReady (n := 4) (by unfold Located; decide) with h | h
+  · exact absurd h hng
+  · exact h
+
 end Nsq.Props.C01Live
